@@ -253,15 +253,22 @@ theorem constructSymbols_err (lengths : Array Nat) (rem symbol : Nat) (offs : Ar
       | (simp at hd; exact hd.symm)
       | exact ih _ _ _ hd
 
+theorem constructLookUpTable_err (h : Huffman) (e : Err)
+    (hd : h.constructLookUpTable = .error e) : e = .panic := by
+  simp only [Huffman.constructLookUpTable] at hd
+  split at hd
+  · simp at hd; subst hd; exact constructLookUpTable_go_err _ _ _ _ _ (by assumption)
+  · simp at hd
+
 theorem construct_err (h : Huffman) (lengths : Array Nat) (e : Err)
     (hd : h.construct lengths = .error e) : e = .panic ∨ e = .badHuffmanTree := by
-  simp only [Huffman.construct, Huffman.constructLookUpTable] at hd
+  simp only [Huffman.construct] at hd
   repeat' split at hd
   all_goals first
     | (simp at hd; done)
     | (simp at hd; subst hd; simp; done)
     | (simp at hd; subst hd; left; exact constructSymbols_err _ _ _ _ _ _ (by assumption))
-    | (simp at hd; subst hd; left; exact constructLookUpTable_go_err _ _ _ _ _ (by assumption))
+    | (simp at hd; subst hd; left; exact constructLookUpTable_err _ _ (by assumption))
 
 theorem huffStep_err (c : Cutter) (sym dl : Int) (e : Err)
     (h : (c.huffStep sym dl).2.2 = some (some e)) : e ≠ .someProgress := by
